@@ -37,6 +37,10 @@ type parser struct {
 	module *ast.Module
 	// module of the toplevel generic instantiation currently being parsed or nil
 	genericModule *ast.Module
+	// how many generic instantiations are currently being parsed around this parser
+	genericDepth int
+	// set (for all parsers of one outermost instantiation) once the limit for genericDepth was hit
+	genericDepthExceeded *bool
 	// modules that were passed as environment, might not all be used
 	predefinedModules map[string]*ast.Module
 	// all found aliases (+ inbuild aliases)
